@@ -87,4 +87,6 @@ Patch_Functional == \A p, q \in Patch : p[1] = q[1] => p = q
 Patch_Terminates == \A k \in PatchKeys : Terminal(k) # "<<cycle>>"
 Patch_TargetsResolve == \A k \in PatchKeys : Terminal(k) \in InPkg => Terminal(k) \in Importable
 Patch_NoCapture == PatchKeys \cap Defined = {}
+(* where every old name must end up: compared by the harness with what lookup_class_with_patches really resolves *)
+Terminals == [k \in PatchKeys |-> Terminal(k)]
 =============================================================================
